@@ -157,6 +157,25 @@ func hashEqualEdges(fn *ssa.Function) (eq, neq map[edge]bool, sites []*ssa.If) {
 			}
 		}
 	}
+	// the comparison behind a predicate ("present, err := holdsChunk(f, c); if present") or a flag
+	for _, g := range fnsDeep(fn) {
+		for e := range acceptingEdgesDeep(g, hashEqualAcc, 0) {
+			if eq[e] {
+				continue
+			}
+			iff := lastIf(e.from)
+			if iff == nil {
+				continue
+			}
+			sites = append(sites, iff)
+			eq[e] = true
+			for _, s := range e.from.Succs {
+				if s != e.to {
+					neq[edge{e.from, s}] = true
+				}
+			}
+		}
+	}
 	return
 }
 
